@@ -21,6 +21,8 @@ mod update;
 
 pub use reconstruction::reconstruct;
 pub use update::update;
+#[cfg(nomt_verif)]
+pub use update::leaf_updater_verif;
 
 /// Do a partial lookup of the key in the beatree.
 ///
